@@ -204,6 +204,8 @@ def judge(r):
             v.append(("handler-invoked-though-blocked", "the request was blocked but the wrapped handler ran %d time(s)" % r["handler_calls"]))
         if r["fallback"] and r.get("fallback_available", True) and r["fallback_calls"] != 1:
             v.append(("fallback-not-produced", "blocked with a fallback configured, fallback ran %d time(s) (response %s)" % (r["fallback_calls"], r["response"][:80])))
+        if r["fallback"] and r.get("fallback_available", True) and r.get("body_checked") and r.get("body", "") != r.get("fallback_body", ""):
+            v.append(("fallback-response-altered", "blocked with a fallback configured: the response body is %r, the fallback wrote %r" % (r.get("body", "")[:80], r.get("fallback_body", ""))))
         if not r["fallback"] and not r["default_rejection_seen"]:
             v.append(("default-rejection-missing", "blocked without a fallback, but the response is not the default rejection: %s" % r["response"][:80]))
         if nblock != 1 or npass != 0 or ncomp != 0 or (seen and (r["blocked"] != 1 or r["passed"] != 0 or r["completed"] != 0)):
